@@ -49,6 +49,12 @@ type T struct{ v int }
 //go:noinline
 func (t *T) M(a int, s string) int { return -5 }
 
+// FT has exactly the function type of the method expression (*T).M
+//
+//go:noinline
+//go:noinline
+func FT(t *T, a int, s string) int { return -55 }
+
 //go:noinline
 func foo(a int) int { return -6 }
 
@@ -203,6 +209,8 @@ func TestC13(t *testing.T) {
 			prepare: func(b *mocker.Builder) { b.Func(F5).Return(P2{55, 55}, 55) }},
 		{name: "T.M", fn: (*T).M, handle: func(b *mocker.Builder) mocker.ExportedMocker { return b.Struct(&T{}).Method("M") }, cbType: reflect.TypeOf((*T).M),
 			state: func() string { return fp(func() interface{} { return (&T{}).M(1, "s") }) }, prepare: func(b *mocker.Builder) { b.Struct(&T{}).Method("M").Return(55) }},
+		{name: "FT", fn: FT, handle: func(b *mocker.Builder) mocker.ExportedMocker { return b.Func(FT) }, cbType: reflect.TypeOf(FT),
+			state: func() string { return fp(func() interface{} { return FT(&T{}, 1, "s") }) }, prepare: func(b *mocker.Builder) { b.Func(FT).Return(55) }},
 		{name: "foo", fn: foo, handle: func(b *mocker.Builder) mocker.ExportedMocker {
 			return b.ExportFunc("foo").As(func(a int) int { return 0 })
 		}, cbType: reflect.TypeOf(foo),
@@ -261,6 +269,16 @@ func TestC13(t *testing.T) {
 				}
 				tg.handle(b).When(as...)
 			}})
+			if !tg.cbType.IsVariadic() {
+				// the LAST k parameters' values (what the list would be had the first parameters been a receiver)
+				ms = append(ms, mistake{"when-too-few-arguments", fmt.Sprintf("the last %d of %d", k, nargs), func(b *mocker.Builder) {
+					as := make([]interface{}, k)
+					for i := range as {
+						as[i] = goodValue(ins[skip+nargs-k+i])
+					}
+					tg.handle(b).When(as...)
+				}})
+			}
 		}
 		// an In clause one of whose alternatives lists too few arguments, the offender first, in the middle and last;
 		// and an arg.In expression with an ill-formed (empty tuple) alternative in front of a good one
@@ -482,6 +500,19 @@ func TestC13(t *testing.T) {
 		{"interface-not-pointer", "Interface(iv value)", func(b *mocker.Builder) {
 			var x I = &NotIface{}
 			b.Interface(x).Method("Get").Apply(zeroFn(ifaceCb))
+		}},
+		// containers of interfaces also have an element type that is an interface - they are not pointers to one
+		{"interface-not-pointer", "Interface([]I) instead of &s[0]", func(b *mocker.Builder) {
+			xs := []I{&NotIface{}}
+			b.Interface(xs).Method("Get").Apply(zeroFn(ifaceCb))
+		}},
+		{"interface-not-pointer", "Interface([]I).As.Return", func(b *mocker.Builder) {
+			xs := []I{nil, nil}
+			b.Interface(xs).Method("Get").As(zeroFn(ifaceCb)).Return(1)
+		}},
+		{"interface-not-pointer", "Interface([2]I array pointer)", func(b *mocker.Builder) {
+			var xs [2]I
+			b.Interface(&xs).Method("Get").Apply(zeroFn(ifaceCb))
 		}},
 		{"interface-not-interface", "Interface(&struct)", func(b *mocker.Builder) { b.Interface(&NotIface{}).Method("Get").Apply(zeroFn(ifaceCb)) }},
 		{"interface-not-interface", "Interface(&int)", func(b *mocker.Builder) { x := 5; b.Interface(&x).Method("Get").Apply(zeroFn(ifaceCb)) }},
